@@ -35,7 +35,15 @@ func (t *stackTarget) line(caseID int, op string, a []int, vs []int) callResult 
 			if len(vs)%2 == 0 {
 				t.s = class.MakeFromArray(src)
 			} else {
-				t.s = class.MakeFromSequence(col.List[int](notation).MakeFromArray(src))
+				// the source sequence is changed afterwards: the stack must own its storage
+				l := col.List[int](notation).MakeFromArray(src)
+				t.s = class.MakeFromSequence(l)
+				l.AppendValue(-98)
+				l.InsertValue(0, -97)
+				if l.GetSize() > 2 {
+					l.SetValue(2, -96)
+					l.RemoveValue(-2)
+				}
 			}
 			for i := range src {
 				src[i] = -99
